@@ -446,6 +446,8 @@ def run(ctx: Ctx) -> Result:
     res.merge(cli_differential(ctx))
     res.merge(filter_fault_stage(ctx))
     res.merge(store_logger_stage(ctx))
+    res.merge(lifetime_stage(ctx))
+    res.obligations.setdefault("lifetime-after-sessions", False)
     res.obligations.setdefault("shipped-store-logger", False)
     res.obligations.setdefault("code-filter-faults", False)
     res.obligations.setdefault("cli-run-differential", False)
@@ -538,6 +540,66 @@ def filter_fault_stage(ctx: Ctx) -> Result:
 
         attempt(f"user filter raising at consultations {list(fs)} of {total}", failing, {"kind": "FILTER", "pos": "user-filter", "faults": list(fs), "raise": False, "profiler": False, "filter_stage": True})
     res.oblige("code-filter-faults", True)
+    return res
+
+
+def lifetime_stage(ctx: Ctx) -> Result:
+    """What the program drops is released as it is without tracing: a traced closure (and a traced method's instance)
+    that own an object with a finaliser are created, called and dropped inside a helper frame, in 1..3 successive tracing
+    sessions; after each session (and a collection) the finalisers have run exactly as they do untraced. The logger keeps
+    nothing (a CallTrace refers to its function)."""
+    import gc
+
+    from monkeytype.tracing import trace_calls
+
+    res = Result()
+    d = ctx.tmp / "c03_lifetime"
+    d.mkdir(exist_ok=True)
+    fname = str(d / "lt.py")
+    ns: Dict[str, Any] = {"__name__": "c03_lifetime"}
+    src = (
+        "JOURNAL = []\n\n\nclass Res:\n    def __init__(self, tag):\n        self.tag = tag\n\n    def __del__(self):\n        JOURNAL.append('del ' + self.tag)\n\n\n"
+        "def make(tag):\n    res = Res(tag)\n\n    def closure(x):\n        return (x, res.tag)\n\n    return closure\n\n\n"
+        "class Holder:\n    def __init__(self, tag):\n        self.res = Res(tag)\n\n    def get(self, x):\n        return (x, self.res.tag)\n\n\n"
+        "def helper(i):\n    c = make('closure%d' % i)\n    h = Holder('holder%d' % i)\n    return [c(1), h.get(2)]\n"
+    )
+    exec(compile(src, fname, "exec"), ns)
+
+    class Drop:
+        def log(self, t):
+            pass
+
+        def flush(self):
+            pass
+
+    def run(traced: bool, sessions: int) -> List[Any]:
+        ns["JOURNAL"].clear()
+        out: List[Any] = []
+        for i in range(sessions):
+            if traced:
+                with trace_calls(Drop(), 0, lambda code: code.co_filename == fname):
+                    out.append(ns["helper"](i))
+            else:
+                out.append(ns["helper"](i))
+            gc.collect()
+            out.append(sorted(ns["JOURNAL"]))
+        return out
+
+    for sessions in (1, 2, 3):
+        res.states += 1
+        res.evaluations += 1
+        res.validated += 1
+        res.transitions += 2 * sessions
+        want = run(False, sessions)
+        got = run(True, sessions)
+        case = {"kind": "LIFETIME", "pos": "closure+instance", "faults": [], "raise": False, "profiler": False, "lifetime": True, "sessions": sessions}
+        if got != want:
+            res.violate(Violation(ID, "journal-differs", "lifetime:finalisers-after-the-session", case, f"{sessions} tracing session(s), objects dropped inside a helper frame, gc.collect() after each session: results and finaliser journal {got!r}; untraced {want!r}"))
+        else:
+            res.nontrivial_n += 1
+    if not any("del closure0" in str(x) for x in run(False, 1)):
+        raise HarnessError("lifetime stage is vacuous: the finaliser does not run untraced")
+    res.oblige("lifetime-after-sessions", True)
     return res
 
 
@@ -763,6 +825,8 @@ def replay(case: Dict[str, Any], ctx: Ctx) -> List[Violation]:
         return filter_fault_stage(ctx).violations
     if case.get("store_logger"):
         return store_logger_stage(ctx).violations
+    if case.get("lifetime"):
+        return lifetime_stage(ctx).violations
     if case.get("cli"):
         return cli_differential(ctx).violations
     M, T, files = load(ctx)
